@@ -274,7 +274,7 @@ func nameEdits(g *Gen, prog *GProgram, r *Rand) string {
 
 func (c *Ctx) checkCase(text string, kind string, extra map[string]any) *CaseInfo {
 	o, _ := runCheck(text)
-	pr := parser.Parse(text)
+	pr := parseSafe(text)
 	ci := &CaseInfo{Kind: kind, Text: text, FailAt: -1, Extra: extra}
 	ci.Class = "ok"
 	if o.Panic != "" {
@@ -553,7 +553,7 @@ func init() {
 				sc.Kind = skExact
 			}
 			o, _ := runCheck(sc.Text)
-			pr := parser.Parse(sc.Text)
+			pr := parseSafe(sc.Text)
 			ro, log := sc.run()
 			term, _ := sc.coq(ro, log)
 			ci := sc.info("c17case")
